@@ -2,6 +2,7 @@
 Require Import Parser Build.
 Require Import ParserJuxt ParserJuxtParse PrintedText Api.
 Require Lex LexWs.
+Require LexWsG.
 From Coq Require Import List String.
 Import ListNotations.
 
@@ -27,11 +28,11 @@ Theorem C07_same_parse : forall (o : oracle) (df : string) (pre : list token) (t
   parse_toks o df (pre ++ t1 :: t2 :: post) = parse_toks o df (pre ++ t1 :: and_tok :: t2 :: post).
 Proof. exact juxt_same_parse. Qed.
 
-(* ... and between results of Parse on query TEXT (ASCII tokens that lex to themselves, single blanks between them):
+(* ... and between results of Parse on query TEXT (tokens of any bytes that lex to themselves when a blank follows, single blanks between them):
    `pre t1 t2 post` and `pre t1 AND t2 post` parse alike - same tree, or both fail. Oracle fact: whitespace runes are not alphanumeric *)
 Theorem C07_same_parse_of_text : forall (o : oracle) (cl : Lex.classes), (forall r, Lex.is_space r = true -> Lex.is_alnum cl r = false) ->
   forall (df : string) (pre : list token) (t1 t2 : token) (post : list token), term_tok t1 = true -> term_tok t2 = true ->
-  Forall (LexWs.lexes_alone cl) (map ltok (pre ++ t1 :: t2 :: post)) -> LexWs.lexes_alone cl (ltok and_tok) ->
+  Forall (LexWsG.lexes_clean cl) (map ltok (pre ++ t1 :: t2 :: post)) -> LexWsG.lexes_clean cl (ltok and_tok) ->
   Api.parse o cl df (text_of (pre ++ t1 :: t2 :: post)) = Api.parse o cl df (text_of (pre ++ t1 :: and_tok :: t2 :: post)).
 Proof. exact juxt_same_text. Qed.
 
